@@ -108,7 +108,10 @@ def gen(d, tier):
                 ops = [("mkdir", dst)] + [(("mkdir", dst + rel) if c is None else ("create", dst + rel, c)) for rel, c in sorted(v[1].items())]
             else:
                 ops = [("create", dst, v)]
-            if any(world.hazard(s, *op) is not None for op in ops[:1]):
+            if any(world.hazard(s, *op) is not None for op in ops[:1]) or dst in world.win.vac[s] or world.win.vac[s] & set(
+                    x for op in ops for x in op[1:2]):
+                # (moving an object in onto a name vacated in the same window: PATH_REUSE without the id/id exception --
+                # the object may be one the engine still remembers from an earlier move-out; witness KF-09b)
                 world.excluded["BOUNDARY_MOVE_HAZARD"] += 1
                 continue
             for op in ops:
